@@ -1312,6 +1312,17 @@ class Circshift(Linop):
         return Identity(self.ishape)
 
 
+def _adjoint_wave_name(wave_name):
+    # The adjoint of the analysis transform is the synthesis transform with
+    # the analysis and synthesis filters exchanged: the wavelet itself for
+    # orthogonal families, the reverse family for biorthogonal ones.
+    for name, dual in (("bior", "rbio"), ("rbio", "bior")):
+        if isinstance(wave_name, str) and wave_name.startswith(name):
+            return dual + wave_name[len(name):]
+
+    return wave_name
+
+
 class Wavelet(Linop):
     """Wavelet transform linear operator.
 
@@ -1349,7 +1360,7 @@ class Wavelet(Linop):
         return InverseWavelet(
             self.ishape,
             axes=self.axes,
-            wave_name=self.wave_name,
+            wave_name=_adjoint_wave_name(self.wave_name),
             level=self.level,
         )
 
@@ -1392,7 +1403,7 @@ class InverseWavelet(Linop):
         return Wavelet(
             self.oshape,
             axes=self.axes,
-            wave_name=self.wave_name,
+            wave_name=_adjoint_wave_name(self.wave_name),
             level=self.level,
         )
 
